@@ -31,6 +31,22 @@ CLAIMS["C10"] = dict(
    technique="Lean 4 proof (number-theoretic identities + encoding lemmas) + extracted constants + model/implementation correspondence",
    design_ref="5/C10")
 
+ # C06
+CLAIMS["C06"] = dict(
+   text="Lean 4 theorems about executable models of callback_buf (network_read.c / network_write.c), callback_accept and the "
+        "tryconnect/callback_connect/callback_timeo/dofailed machinery of network_connect.c: for EVERY kernel script (any fragmentation, "
+        "any number of EAGAIN/EWOULDBLOCK/EINTR, EOF or hard error anywhere) a read ends in one completion with minread<=n<=buflen whose "
+        "buffer is exactly the next n stream bytes with the remainder still queued; a write hands exactly buf[0..n) to the socket; accept "
+        "retries on exactly the soft errors; a connect over ANY list of per-address outcomes yields exactly one callback with the first "
+        "socket that connected (or -1, or none when an address hangs without timeout), tries addresses in order and closes every failed "
+        "socket. The models are run in lock-step (every recv/send with its length argument and result, every socket/close) against the "
+        "real code over the real event loop with a scripted kernel (--wrap), incl. all outcome strings up to length 4/6 exhaustively.",
+   note=PROOF_NOTE + "The kernel (poll/recv/send/accept/connect/getsockopt) is scripted; the event loop's one-shot registration contract is C04's; "
+        "allocation failure inside these requests is C14's. 'Exactly one callback' is structural in the functional model; on the real code it is "
+        "observed by the harness (callback counters) on every generated case.",
+   technique="Lean 4 proof (invariants over arbitrary kernel scripts; refinement of the stepwise connect model to a one-pass reference) + lock-step correspondence",
+   design_ref="5/C06")
+
 PENDING = "check not built yet in this round (see DESIGN.md section 5 for the plan); nothing is claimed for it"
 
 def main():
